@@ -52,7 +52,14 @@ META = {
         "operation outcomes (accepted / rejection site / returned value) seen by the strategy are logged for diagnosis only; "
         "the statement demands account rows, actions and snapshots",
         "deribit histories stay inside one calendar day and do not touch 00:00 (deribit get_price_from_data pads to the end "
-        "of the day of the last book hour)",
+        "of the day of the last book hour); the first book hour lists every instrument (the derived price frame starts there)",
+        "a pair reports only its earliest difference (bar order, then before_bar/on_bar/after_bar snapshot, account row, and "
+        "the action log last): the script reacts to what it sees, so later differences are consequences",
+        "bars that exist in H only because later rows exist (5/15-minute bars between the hourly books of a deribit-only run "
+        "when H' ends at the cut) are not compared; spliced histories whose pool has no more minutes than the book has hours "
+        "are skipped (Actuator.get_test_range would take the hourly book as the bar grid)",
+        "pandas >= 3 copy-on-write is the platform: a dropped .copy() of a row / cross-section cannot write through to the "
+        "supplied frame and is therefore not observable; nested ask/bid lists are shared through .copy() and are digested",
     ],
 }
 NSHARDS = 16
